@@ -117,3 +117,37 @@ func VP_C04_StoreInterfaceRoundTrip() {
 	vpAssert("interface-returns-the-dispatcher-verdict", ok == fake.authOK && adm == fake.authAdm && (err != nil) == (fake.authErr != nil))
 	vpCover("end")
 }
+
+// VP_C04_ConcurrentVerdicts: two clients of one listener (one shared *Store handle) submit
+// different credentials at the same time, under every schedule at blocking points: each gets the
+// store's verdict for its own credentials.
+func VP_C04_ConcurrentVerdicts() {
+	_, st, _, _ := vpAgent(1, "")
+	names := [2]string{"u", "u"}
+	pws := [2]string{"old", "bad"}
+	if vpTier() == 1 {
+		names[1] = []string{"u", "root"}[vpChoose("name2", 2)]
+		pws = [2]string{[]string{"old", "bad"}[vpChoose("password1", 2)], []string{"bad", "old", "rootpw"}[vpChoose("password2", 3)]}
+	}
+	vpSchedExploreFine(1) // switches at blocking points plus one preemption at any channel operation
+	done := make(chan bool, 2)
+	var oks [2]bool
+	var errs [2]error
+	for i := 0; i < 2; i++ {
+		i := i
+		go func() {
+			oks[i], _, _, errs[i] = st.Authenticate(names[i], pws[i])
+			done <- true
+		}()
+	}
+	a := vpAwait(done)
+	b := vpAwait(done)
+	vpSchedExplore(false)
+	vpAssert("both-answered", a && b)
+	for i := 0; i < 2; i++ {
+		right := (names[i] == "u" && pws[i] == "old") || (names[i] == "root" && pws[i] == "rootpw")
+		vpAssert("sched: each-client-gets-the-verdict-for-its-own-credentials", oks[i] == right)
+		vpAssert("sched: accepted-only-without-error", vpImp(oks[i], errs[i] == nil))
+	}
+	vpCover("end")
+}
